@@ -24,7 +24,7 @@ def run_mgm(eng, p):
         from pydcop.algorithms.mgm2 import Mgm2Computation
         Mgm2Computation._compute_cost.cache_clear()
     lo, hi = p.get("range", (-BIG, BIG))
-    inst = Instance(eng, p["spec"], lo=lo, hi=hi)
+    inst = Instance(eng, p["spec"], lo=lo, hi=hi, entry_kinds=p.get("kinds"))
     params = {"stop_cycle": p["stop"]}
     params.update(p.get("params", {}))
     cg, comps = build_computations(inst.dcop, algo, inst.mode, params)
